@@ -1,8 +1,8 @@
 (** Extraction of the assembly-level models (engine "asm"). ExtrOcamlBasic + ExtrOcamlString only:
     N / Z / positive / nat stay the extracted inductives. *)
 From Coq Require Import ExtrOcamlBasic ExtrOcamlString.
-From CC Require Import Base.Str Asm.Lines Model.Optimize Model.CheckBranches Model.InlineRename.
+From CC Require Import Base.Str Asm.Lines Model.Optimize Model.CheckBranches Model.InlineRename Model.Csleep.
 Extraction Language OCaml.
 Extraction "../build/ocaml/asm_model.ml"
   mnem_of_name mnem_name size_bytes optimize optimize_opt check_branches append_code push_code
-  string_of_N.
+  string_of_N csleep_code.
